@@ -41,3 +41,34 @@ SPECS['BaseDiscretizer._transform_quantitative'] = FunctionSpec(qual='BaseDiscre
     params=[('self', BDP), ('X', OPQ), ('y', OPQ)], returns=OPQ, ensures=post, pool_model=True, opaque_functions={'DataFrame'},
     locals={'all_transformed': LRT, 'all_transformed_async': LRT, '$DataFrame.arg0': TDict(VAL, LVAL)},
     note='multiprocessing modelled by its ASSUMED contract (apply_async(g, args).get() == g(*args)); the DataFrame assembly is a library call')
+
+# ------------------------------------------------------------------------------------------------ ContinuousDiscretizer.fit: sequential list vs pool.imap_unordered
+# PROVED, for every n_jobs and EVERY completion order of the workers: after the orders are stored, values_orders[f] is the order fit_feature computes for f from
+# (X[quantitative_features], q, str_nan), for every quantitative feature f; the other entries are untouched; a fitted object is refused before anything is written.
+# ASSUMED: multiprocessing (imap_unordered(partial(g, **kw), xs) = the values g(x, **kw) in an arbitrary order), fit_feature deterministic and naming its feature
+# (its own contract: contracts.quantile_fit), super().fit leaves values_orders alone (BaseDiscretizer.fit: bounded, C08), feature names pairwise different.
+import contracts.quantile_fit as QF
+from contracts.grouped_list import GL
+QFILE = 'AutoCarver/discretizers/utils/quantitative_discretizers.py'
+YT = QF.YT; LYT = TList(YT); ly = LYT.th()
+CDT = TObj('ContinuousDiscretizerP', [('quantitative_features', LVAL), ('values_orders', DVG), ('str_nan', VAL), ('q', OPQ), ('n_jobs', INT), ('is_fitted', BOOL), ('verbose', BOOL)])
+def Cq(o, n): return CDT.get(o, n)
+cf = _copy.copy(QF.SPECS['fit_feature']); cf.deterministic = True; cf.pure = True; cf.requires = lambda o: BoolVal(True)
+cf.ensures = lambda o, n, r: [('names_its_feature', YT.proj(0, r) == o['feature'])]
+cf.note = 'ASSUMED here, proved in contracts.quantile_fit (here only: result = function of the arguments, first component = the feature)'
+SPECS_CD = {'fit_feature': cf}
+SPECS_CD['super.fit'] = FunctionSpec(qual='BaseDiscretizer.fit', name='super.fit', file=FILE, cls='ContinuousDiscretizerP', params=[('self', CDT), ('X', OPQ), ('y', OPQ)], modifies=['self'], pure=True,
+    ensures=lambda o, n, r: [('values_orders_kept', And(Cq(n['self'], 'values_orders') == Cq(o['self'], 'values_orders'), Cq(n['self'], 'quantitative_features') == Cq(o['self'], 'quantitative_features')))],
+    note='ASSUMED: BaseDiscretizer.fit (label tables, is_fitted) leaves values_orders and the feature lists alone (bounded: engine R, C08)')
+def cd_post(o, n, r, loc):
+    s0, s1 = o['self'], n['self']; qf = Cq(s0, 'quantitative_features'); k = Int('k_cd'); f = Const('f_cd', Val)
+    Xq = opaque_apply('getitem', [o['X'], opaque_apply('box_' + repr(LVAL), [qf])])
+    Rf = Function('res_fit_feature', Val, OPQ.sort(), OPQ.sort(), Val, YT.sort())
+    return [('every_quantitative_feature_gets_the_order_fit_feature_computes_for_it_whatever_n_jobs_and_the_completion_order_are',
+             ForAll([k], Implies(And(0 <= k, k < lv.Len(qf)), And(DVG.has(Cq(s1, 'values_orders'), lv.At(qf, k)),
+                    DVG.get(Cq(s1, 'values_orders'), lv.At(qf, k)) == YT.proj(1, Rf(lv.At(qf, k), Xq, Cq(s0, 'q'), Cq(s0, 'str_nan'))))), patterns=[lv.At(qf, k)])),
+            ('other_entries_untouched', ForAll([f], Implies(Not(lv.Has(qf, f)), DVG.get(Cq(s1, 'values_orders'), f) == DVG.get(Cq(s0, 'values_orders'), f)), patterns=[DVG.get(Cq(s1, 'values_orders'), f)]))]
+SPECS_CD['ContinuousDiscretizer.fit'] = FunctionSpec(qual='ContinuousDiscretizer.fit', file=QFILE, cls='ContinuousDiscretizerP', params=[('self', CDT), ('X', OPQ), ('y', OPQ)], returns=CDT, modifies=['self'],
+    requires=lambda o: And(lv.Nodup(Cq(o['self'], 'quantitative_features')), lv.Nodup(DVG.keys(Cq(o['self'], 'values_orders')))), raises={'AssertionError': lambda o: Cq(o['self'], 'is_fitted')},
+    ensures=cd_post, pool_model=True, locals={'all_orders': LYT},
+    note='multiprocessing modelled by its ASSUMED contract (imap_unordered = the same values in an arbitrary order)')
